@@ -172,6 +172,16 @@ def run_job(job):
                     if len(c.split()) not in (12, 15, 18, 21, 24):
                         acc.ob("wrong_word_count")
                     acc.check("phrase", {"phrase": c, "what": "shape variant"}, chk_phrase)
+                # near-miss typos of the word actually present, at EVERY position (a lookup that maps a non-list token to
+                # its neighbour in the sorted list keeps the checksum valid)
+                for pos, w0 in enumerate(ws):
+                    for t in (w0[:-1], w0 + "a", w0[:-1] + chr(ord(w0[-1]) - 1) + "z", w0[:-1] + chr(ord(w0[-1]) + 1), w0 + "zz", w0[:-2] + "~"):
+                        if t in R.words():
+                            continue
+                        acc.evaluations += 1
+                        acc.nontrivial += 1
+                        acc.ob("non_list_word")
+                        acc.check("phrase", {"phrase": " ".join(ws[:pos] + [t] + ws[pos + 1:]), "what": f"typo {t!r} for {w0!r} at {pos}"}, chk_phrase)
     elif part == "seed":
         phrases = [base_phrases(seed, 16)[0], base_phrases(seed, 32)[0], "abandon " * 11 + "about"]
         passes = [None, "", "TREZOR", "ｐａｓｓ", "é", "é", " ", "a" * 100, "ÅΩ"]
